@@ -255,11 +255,16 @@ sse_rule_loadupib (OrcCompiler *compiler, void *user, OrcInstruction *insn)
 #endif
       break;
     case 2:
+      /* pinsrw leaves the other lanes as they were: an accumulating opcode
+       * further down sums the whole register */
+      orc_sse_emit_pxor (compiler, dest->alloc, dest->alloc);
       orc_sse_emit_pinsrw_memoffset (compiler, 0, offset, ptr_reg, dest->alloc);
       orc_sse_emit_movdqa (compiler, dest->alloc, tmp);
       orc_sse_emit_psrlw_imm (compiler, 8, tmp);
       break;
     case 4:
+      orc_sse_emit_pxor (compiler, dest->alloc, dest->alloc);
+      orc_sse_emit_pxor (compiler, tmp, tmp);
       orc_sse_emit_pinsrw_memoffset (compiler, 0, offset, ptr_reg, dest->alloc);
       orc_sse_emit_pinsrw_memoffset (compiler, 0, offset + 1, ptr_reg, tmp);
       break;
@@ -319,6 +324,9 @@ sse_rule_loadupdb (OrcCompiler *compiler, void *user, OrcInstruction *insn)
       orc_sse_emit_movd_load_register (compiler, compiler->gp_tmpreg, dest->alloc);
       break;
     case 4:
+      /* as in sse_rule_loadX: the lanes pinsrw does not write must not keep
+       * what the register held before */
+      orc_sse_emit_pxor (compiler, dest->alloc, dest->alloc);
       orc_sse_emit_pinsrw_memoffset (compiler, 0, offset, ptr_reg, dest->alloc);
       break;
     case 8:
